@@ -627,7 +627,15 @@ fn run_task(j: &JobData, w: u8, sim: Option<Arc<Sim>>, record_sites: bool) -> Ta
             } else if p.is::<BudgetExceeded>() {
                 Outcome::Budget(ctx.steps)
             } else {
-                Outcome::Panicked(seams::take_last_panic().unwrap_or_else(|| "<unknown panic>".into()))
+                let msg = seams::take_last_panic().unwrap_or_else(|| "<unknown panic>".into());
+                // a panic before the pass was entered is the parser's or the resolver's (swc's lexer panics on a
+                // numeric character reference that is a lone surrogate, for one): the module is not a "parseable
+                // module" then, and nothing can be said about the pass
+                if matches!(ctx.phase, seams::Phase::Setup | seams::Phase::Parse | seams::Phase::Resolve) {
+                    Outcome::ParseFail(format!("the host panicked before the pass ran: {msg}"))
+                } else {
+                    Outcome::Panicked(msg)
+                }
             }
         }
     };
